@@ -11,7 +11,7 @@ structure Mid (cfg : Cfg) (s : State) : Prop where
   occupied : (liveL s.slots).length + s.c.numVacancies = cfg.slots
   active : s.c.numActive = cfg.slots - s.c.numVacancies
 
-theorem it_spec_none {cfg : Cfg} {s : State} (hord : cfg.order = .none) (hL : Lens cfg s)
+theorem it_spec_none {cfg : Cfg} {s : State} (hord : cfg.order ≠ .initCharge) (hL : Lens cfg s)
     (hC : Core s s.c.numInitializers) (hcap : s.c.numInitializers ≤ cfg.capacity)
     (hvac : s.vacancies = (List.range cfg.slots).filter
       (fun i => !(s.slots.getD i Slot.empty).active))
@@ -25,7 +25,7 @@ theorem it_spec_none {cfg : Cfg} {s : State} (hord : cfg.order = .none) (hL : Le
       = s.c.numVacancies - min s.c.numVacancies s.c.numInitializers ∧
     (initializeTracks s).pending = s.pending ∧
     (initializeTracks s).c.numGenerated = s.c.numGenerated := by
-  have hso : s.cfg.order = .none := by rw [hL.cfg_eq]; exact hord
+  have hso : ¬ s.cfg.order = .initCharge := by rw [hL.cfg_eq]; exact hord
   have hvnd : s.vacancies.Nodup := by rw [hvac]; exact List.Pairwise.sublist List.filter_sublist List.nodup_range
   have hvlt : ∀ v ∈ s.vacancies, v < cfg.slots := by
     intro v hv; rw [hvac] at hv; simpa using (List.mem_filter.mp hv).1
@@ -46,7 +46,7 @@ theorem it_spec_none {cfg : Cfg} {s : State} (hord : cfg.order = .none) (hL : Le
     (n := min s.c.numVacancies s.c.numInitializers) (Nat.min_le_left _ _) (Nat.min_le_right _ _)
     hcap (by omega) hvnd hvlt (min s.c.numVacancies s.c.numInitializers) (Nat.le_refl _) h0
   unfold initializeTracks
-  simp only [hso]
+  simp only [hso, if_false]
   by_cases hn : min s.c.numVacancies s.c.numInitializers > 0
   · simp only [hn, if_true]
     generalize (List.range (min s.c.numVacancies s.c.numInitializers)).foldl
